@@ -371,7 +371,7 @@ func helperCases(c *Ctx, nmax int, permLimit int, emit func(helperCase)) int {
 }
 
 func runHelpers(c *Ctx, prop string) {
-	nmax := pick(c, 6, 8)
+	nmax := pick(c, 7, 8)
 	permLimit := pick(c, 3, 4)
 	c.Cov.Rule = "for every accumulator state with N<=Nmax (every alive subset): AddProof and GetMissingPositions on every ordered pair of non-empty live leaf sets (first list also reversed); GetProofSubset on every target list in every order (all permutations for |A|<=PermLimit) x every sub-list in every order, plus every single uncovered want; MapPollard.GetMissingPositions + VerifyPartialProof on partial forests (remember all/even/none, TotalRows 0/3/63) for every target set; hashes always parallel to the targets as listed; oracle: reference canonical proofs and path sets; non-trivial = cases with at least two targets in a state with a dead leaf"
 	c.Cov.Bound["Nmax"] = nmax
